@@ -184,7 +184,14 @@ func (ve *verifEnv) runHistory(seed int64, p verifgen.Params, hist []verifgen.En
 				cp := verifNewServer()
 				if _, err := cp.Unmarshal(data); err == nil {
 					srv = cp
-					mons.Resync(srv.VerifView())
+					// the round trip is judged like an entry without an actor: any change of
+					// privileged state, membership or ownership it causes is unjustified
+					rt := verifgen.Entry{Type: -1, Id: e.Id, Cmd: "SNAPSHOT-ROUNDTRIP", Data: "(state serialized and loaded)", UnixNano: e.UnixNano}
+					restored := srv.VerifView()
+					for _, f := range mons.Step(&verifmon.Step{Entry: rt, Before: after, After: restored}) {
+						ve.rep.Violation(f.Prop, f.Key, f.What, map[string]interface{}{"gen": hp, "entry_index": idx, "entry": rt, "prefix_tail": tailEntries(hist, idx, 12)})
+					}
+					mons.Resync(restored)
 					ve.rep.Obs("snapshot-round-trips", 1)
 				}
 			}
